@@ -22,6 +22,7 @@ type SV struct {
 	K        bool  // + k, 0 <= k < stride
 	C        int64 // + C
 	E        bool  // an element counter running over a whole flat array (all residues, uniformly)
+	W        int64 // + w, 0 <= w <= W (a counter bounded by a small constant: `for k := range 2`)
 }
 
 func (a SV) String() string {
@@ -46,6 +47,9 @@ func (a SV) String() string {
 	if a.C != 0 || len(parts) == 0 {
 		parts = append(parts, fmt.Sprintf("%d", a.C))
 	}
+	if a.W != 0 {
+		parts = append(parts, fmt.Sprintf("[0..%d]", a.W))
+	}
 	return strings.Join(parts, "+")
 }
 
@@ -69,34 +73,37 @@ func svAdd(a, b SV) SV {
 	if a.Top || b.Top || (a.K && b.K) {
 		return svTop
 	}
-	return SV{Al: a.Al || b.Al, M: a.M + b.M, K: a.K || b.K, C: a.C + b.C}.norm()
+	if a.W+b.W > 8 || (a.W+b.W != 0 && (a.K || b.K)) {
+		return svTop
+	}
+	return SV{Al: a.Al || b.Al, M: a.M + b.M, K: a.K || b.K, C: a.C + b.C, W: a.W + b.W}.norm()
 }
 
 func svSub(a, b SV) SV {
 	if a.Bot || b.Bot {
 		return svBot
 	}
-	if a.E || b.E {
+	if a.E || b.E || b.W != 0 {
 		return svTop
 	}
 	if a.Top || b.Top || b.K {
-		if !a.Top && !b.Top && a.K && b.K {
+		if !a.Top && !b.Top && a.K && b.K && a.W == 0 {
 			return SV{Al: a.Al || b.Al, M: a.M - b.M, C: a.C - b.C}.norm()
 		}
 		return svTop
 	}
-	return SV{Al: a.Al || b.Al, M: a.M - b.M, K: a.K, C: a.C - b.C}.norm()
+	return SV{Al: a.Al || b.Al, M: a.M - b.M, K: a.K, C: a.C - b.C, W: a.W}.norm()
 }
 
-func (a SV) pureStride() bool { return !a.Top && !a.Bot && !a.Al && !a.K && a.C == 0 && a.M != 0 }
-func (a SV) isConst() bool    { return !a.Top && !a.Bot && !a.Al && !a.K && a.M == 0 }
-func (a SV) aligned0() bool   { return !a.Top && !a.Bot && !a.K && a.C == 0 }
+func (a SV) pureStride() bool { return !a.Top && !a.Bot && !a.Al && !a.K && a.C == 0 && a.M != 0 && a.W == 0 }
+func (a SV) isConst() bool    { return !a.Top && !a.Bot && !a.Al && !a.K && a.M == 0 && a.W == 0 }
+func (a SV) aligned0() bool   { return !a.Top && !a.Bot && !a.K && a.C == 0 && a.W == 0 }
 
 func svMul(a, b SV) SV {
 	if a.Bot || b.Bot {
 		return svBot
 	}
-	if a.E || b.E {
+	if a.E || b.E || a.W != 0 || b.W != 0 {
 		return svTop
 	}
 	if a.isConst() && b.isConst() {
@@ -130,8 +137,16 @@ func svJoin(a, b SV) SV {
 	if a.Top || b.Top || a.K != b.K || a.C != b.C || a.E != b.E {
 		return svTop
 	}
+	w := a.W
+	if b.W > w {
+		w = b.W
+	}
 	if a.Al || b.Al || a.M != b.M {
-		return SV{Al: true, K: a.K, C: a.C}
+		return SV{Al: true, K: a.K, C: a.C, W: w}
+	}
+	if a.W != b.W {
+		a.W = w
+		return a
 	}
 	return a
 }
@@ -478,6 +493,7 @@ func analyzeStride(fn *ssa.Function, pv map[*ssa.Parameter]SV) *StrideInfo {
 	// K loop variables: phi(0, phi+1) bounded by `< stride`
 	kphi := map[*ssa.Phi]bool{}
 	ephi := map[*ssa.Phi]bool{}
+	wphi := map[*ssa.Phi]int64{} // counters 0, 1, .. bounded by a small constant
 	eval = func(v ssa.Value) SV {
 		if isStride(v) {
 			return SV{M: 1}
@@ -580,6 +596,9 @@ func analyzeStride(fn *ssa.Function, pv map[*ssa.Parameter]SV) *StrideInfo {
 			if kphi[x] {
 				return SV{K: true}
 			}
+			if w, ok := wphi[x]; ok {
+				return SV{W: w}
+			}
 			if ephi[x] {
 				return SV{E: true}
 			}
@@ -623,12 +642,24 @@ func analyzeStride(fn *ssa.Function, pv map[*ssa.Parameter]SV) *StrideInfo {
 				if bo, ok := rf.(*ssa.BinOp); ok && bo.Op == token.LSS && bo.X == phi && isLenFlat(bo.Y) {
 					ephi[phi] = true
 				}
+				if bo, ok := rf.(*ssa.BinOp); ok && bo.Op == token.LSS && bo.X == phi {
+					if c, isC := ConstInt(bo.Y); isC && c >= 1 && c <= 4 {
+						wphi[phi] = c - 1
+					}
+				}
 			}
 			// rangeint lowering compares the incremented value
 			for _, e := range phi.Edges {
 				for _, rf := range Referrers(e) {
 					if bo, ok := rf.(*ssa.BinOp); ok && bo.Op == token.LSS && bo.X == e && isStride(bo.Y) {
 						kphi[phi] = true
+					}
+					if bo, ok := rf.(*ssa.BinOp); ok && bo.Op == token.LSS && bo.X == e && e != ssa.Value(phi) {
+						if _, isInc := e.(*ssa.BinOp); isInc {
+							if c, isC := ConstInt(bo.Y); isC && c >= 1 && c <= 4 {
+								wphi[phi] = c - 1
+							}
+						}
 					}
 				}
 			}
